@@ -642,6 +642,13 @@ impl<'a, T> ContextBase<'a, T> {
             Some(value) => (value.pos, self.resolve_input_value(value)?),
             None => (Pos::default(), None),
         };
+        // An argument given as a variable that has no runtime value counts as omitted, so
+        // the argument's default applies (GraphQL October 2021, 6.4.1 CoerceArgumentValues).
+        if value.is_none()
+            && let Some(default) = default
+        {
+            return Ok((pos, default()));
+        }
         InputType::parse(value)
             .map(|value| (pos, value))
             .map_err(|e| e.into_server_error(pos))
